@@ -98,7 +98,8 @@ EditCalls ==
      {[C("SetDtype") EXCEPT !.v = v, !.name = "INT32"] : v \in EV}
   \cup {[C("SetType") EXCEPT !.v = v, !.name = "DOUBLE"] : v \in EV}
   \cup {[C("SetDim") EXCEPT !.v = v, !.i = 0, !.j = 7] : v \in EV}
-  \cup {[C("SetShape") EXCEPT !.v = v, !.vs = <<5>>] : v \in EV}
+  \cup {[C("SetShape") EXCEPT !.v = v, !.vs = d] : v \in EV, d \in {<<5>>} \cup (IF "MergeShapes" \in Focus THEN {<<-1, 3>>, <<-1, -1, 4>>} ELSE {})}
+  \cup {[C("MergeShapes") EXCEPT !.v = v, !.vs = d] : v \in EV, d \in {<<2, 3>>, <<2, 4>>, <<-1, 3>>, <<7>>, <<6, 6, 5>>, <<-1, 8, 4>>}}
   \cup {[C("SetDenot") EXCEPT !.v = v, !.i = -1, !.name = "DATA_BATCH"] : v \in EV}
   \cup {[C("MetaPut") EXCEPT !.v = v, !.name = "k2"] : v \in EV}
   \cup {[C("ValMetaPut") EXCEPT !.v = v, !.name = "k2"] : v \in EV}
